@@ -208,3 +208,6 @@ def check(ctx):
     ctx.order(SEL + "::select", Call(re.escape(RT), transitive=False), Call(r"may::scheduler::Scheduler::schedule_with_id|may::coroutine_impl::run_coroutine", transitive=False),
               "select/remove-then-schedule-handed-over", "a handed-over coroutine is scheduled only after its timer was removed", need_b=True) if False else None
     shared.injected_kinds(ctx)
+    # dependency: an io timeout result that was injected is consumed by the woken front-end before it returns (rules owned by C15 / C17)
+    ctx.import_rules("C15", r"^consume-after:")
+    ctx.import_rules("C17", r"^done/result-after-resume")
